@@ -45,6 +45,8 @@ class C11(Property):
         p = rnd.choice([0.0, 0.25, 0.5, 0.75, 1.0, round(rnd.random(), 3)])
         payload = rnd.choice(["scalar", "scalar", "grid", "masked"])
         events = [["push", 0, rnd.randint(-50, 50)]]
+        if rnd.random() < 0.3:
+            events.append(["pull_future", rnd.choice([1, 5, 100])])  # only one publication buffered so far
         t = 0
         last = 0
         for _ in range(rnd.randint(6, 40)):
@@ -60,13 +62,15 @@ class C11(Property):
                     tq = t if mode < 0.15 else rnd.randint(last, t)
                 last = tq
                 events.append(["pull", tq])
+                if tq == t and rnd.random() < 0.3:
+                    events.append(["pull_future", t + rnd.choice([1, 5, 100])])  # right after a request on the newest publication
             elif r < 0.95:
                 events.append(["pull_future", t + rnd.choice([1, 5, 100])])
             else:
                 events.append(["pull_past", -rnd.choice([1, 5])])
         memory = rnd.choice([None, None, None, 0, 8, 100, 200])
         return dict(kind=kind, p=p, payload=payload, events=events, memory=memory, units=rnd.choice(["m", "m", "m", "degC", "", "mm/d"]),
-                    sink=rnd.choice(["pull", "pull", "pull", "push"]))
+                    sink=rnd.choice(["pull", "pull", "pull", "push"]), upstream=rnd.choice([None, None, "scale", "probe"]))
 
     def run(self, spec):
         out = Outcome()
@@ -89,7 +93,12 @@ class C11(Property):
             out.count("cases_with_memory_limit")
         if spec.get("sink") == "push":
             return self._push_sink(out, spec, info, ada, w, mask, loc)
-        o, (inp,) = slots.simple_link(info, info.copy_with(), adapters=[ada], memory=spec.get("memory"), location=loc)
+        pre = []
+        if spec.get("upstream"):
+            # a pass-through adapter between the output and the time adapter: the time adapter's source is then an adapter
+            pre = [fm.adapters.Scale(1.0) if spec["upstream"] == "scale" else fm.adapters.CallbackProbe(lambda d, t: None)]
+            out.count("time_adapter_behind_another_adapter")
+        o, (inp,) = slots.simple_link(info, info.copy_with(), adapters=pre + [ada], memory=spec.get("memory"), location=loc)
         try:
             return self._drive(out, spec, o, inp, ada, w, mask)
         finally:
@@ -224,7 +233,7 @@ class C11(Property):
 
     def coverage_gaps(self, counters, tier):
         need = ["publications", "pulls_compared", "pulls_on_publication", "pulls_between_publications", "buffer_evictions",
-                "requests_across_several_publications", "out_of_range_refused", "pulls_in_notification"] + ["kind_" + k for k in KINDS]
+                "requests_across_several_publications", "out_of_range_refused", "pulls_in_notification", "time_adapter_behind_another_adapter"] + ["kind_" + k for k in KINDS]
         return [f"{k} never observed" for k in need if not counters.get(k)]
 
 
